@@ -408,6 +408,51 @@ func r19Visitor(c *RuleCtx) {
 		return ev
 	}
 	pa.run(0)
+	// (c) what is handed to the visitor for one value is computed for that value: following
+	// phi edges only, an argument must not be a loop-header phi (a value carried over from
+	// the previous iteration, e.g. a variable that used to be declared inside the loop)
+	loops := naturalLoops(fn)
+	for i, cl := range calls {
+		var hdrs []*ssa.BasicBlock
+		for _, l := range loops {
+			if l.blocks[cl.Block()] {
+				hdrs = append(hdrs, l.header)
+			}
+		}
+		if len(hdrs) == 0 {
+			continue
+		}
+		var stale []string
+		for ai, a := range cl.Call.Args {
+			seen := map[ssa.Value]bool{}
+			var carried func(v ssa.Value) bool
+			carried = func(v ssa.Value) bool {
+				if seen[v] {
+					return false
+				}
+				seen[v] = true
+				ph, ok := v.(*ssa.Phi)
+				if !ok {
+					return false
+				}
+				for _, h := range hdrs {
+					if ph.Block() == h {
+						return true
+					}
+				}
+				for _, e := range ph.Edges {
+					if carried(e) {
+						return true
+					}
+				}
+				return false
+			}
+			if carried(a) {
+				stale = append(stale, fmt.Sprintf("argument %d (%s) can be the value left over from the previous stored value", ai, a.Name()))
+			}
+		}
+		c.check(len(stale) == 0, fmt.Sprintf("visitor-args-fresh#%d", i+1), c.pos(cl), "inside the loop over stored values, no visitor argument is a loop-carried variable", strings.Join(stale, "; "))
+	}
 	for i, cl := range calls {
 		okc := true
 		why := ""
